@@ -278,6 +278,14 @@ def step (d : D) (ws : List String) : D × String :=
   | ["readonly", m] =>
     let f (e : Eng) := (run R.fSetReadOnly (.flag (m == "on")) e).eng
     ({ d with st := { d.st with eng := f d.st.eng }, tw := { d.tw with eng := f d.tw.eng } }, "ok")
+  | "scanrace" :: _pfx :: ops =>
+    -- a streaming scan that is open while a batch arrives: the scan runs inside a read-only transaction, the batch waits for
+    -- it; the scan shows the state before the batch, then the batch is applied (service and twin)
+    match parseBOps ops with
+    | some bops =>
+      let (d', out) := rpc d (.batchWrite bops)
+      if out.startsWith "svc=ok" then (d', "scanrace atomic-old") else (d', "scanrace err:batch")
+    | none => (d, "bad-op")
   | ["dump"] => (d, s!"dump svc={digest d.st.eng} emb={digest d.tw.eng}")
   | ["probe"] => (d, "probe facade=0 rpc=0")
   | ["close"] =>
